@@ -31,7 +31,7 @@ type Caller struct {
 type Case struct {
 	Callers   []Caller `json:"callers"`
 	LatencyUs int      `json:"latency_us"`
-	Outcome   string   `json:"outcome"` // value | error | error-then-value
+	Outcome   string   `json:"outcome"` // value | error | error-then-value | item+error | item+error-then-value
 	ExpMs     int      `json:"exp_ms"`  // 0: never expires
 	Cleanup   bool     `json:"cleanup,omitempty"`
 	Rep       int      `json:"rep,omitempty"`
@@ -113,8 +113,16 @@ func run(w *core.Worker, c Case) {
 						}
 						var it *cache.Item[int]
 						var err error
-						if c.Outcome == "error" || (c.Outcome == "error-then-value" && nth == 1) {
+						failing := c.Outcome == "error" || c.Outcome == "item+error" || ((c.Outcome == "error-then-value" || c.Outcome == "item+error-then-value") && nth == 1)
+						if failing {
 							err = fmt.Errorf("exec %d failed", e.id)
+							if c.Outcome == "item+error" || c.Outcome == "item+error-then-value" {
+								// a failure that still hands back an item ("last known value"): it is an
+								// error result all the same and must not be cached
+								mk := fmt.Sprintf("mintfail%d", e.id)
+								mint.Update(mk, -(cl.Key*1000 + e.id), cache.NoExpiration)
+								it, _ = mint.Get(mk)
+							}
 						} else {
 							val := cl.Key*1000 + e.id
 							mk := fmt.Sprintf("mint%d", e.id)
@@ -310,6 +318,7 @@ type SOp struct {
 	K   string `json:"op"` // call adv
 	Key int    `json:"key,omitempty"`
 	Err bool   `json:"err,omitempty"`
+	Itm bool   `json:"item_with_error,omitempty"` // the failing function also returns an item
 	Adv string `json:"adv,omitempty"` // small before after
 }
 
@@ -373,6 +382,12 @@ func runSeq(w *core.Worker, c SeqCase) {
 						time.Sleep(lat)
 					}
 					if op.Err {
+						if op.Itm {
+							mk := fmt.Sprintf("mintfail%d", i)
+							mint.Update(mk, -val, cache.NoExpiration)
+							x, _ := mint.Get(mk)
+							return x, fmt.Errorf("step %d failed", i)
+						}
 						return nil, fmt.Errorf("step %d failed", i)
 					}
 					mk := fmt.Sprintf("mint%d", i)
@@ -439,7 +454,7 @@ func runSeq(w *core.Worker, c SeqCase) {
 func TestProp(t *testing.T) {
 	r := core.Start(t, "C17")
 	defer r.Finish()
-	r.Rule("memo-concurrent: 1..16 goroutines calling Memoize on 1..3 keys inside a testing/synctest bubble (-race build) with function latency {0, 10ms, 1s virtual}, outcomes {value, error, error-then-value}, staggered starts, expiry {never, 25ms}; the supplied function counts executions in flight per key and logs (trigger, start, end, result) with virtual timestamps; checked: never 2 in flight per key, every result produced by a same-key execution that finished before the caller returned (errors only from overlapping executions, values not after their expiry), no execution triggered by a call that began after a live value was cached, no waiting on another key; each distinct case is repeated for schedule diversity (distinct = (case without the repetition index, GOMAXPROCS); non-trivial = >= 2 callers) || memo-sequential: every call/advance pattern up to length 5 against an exact cache model (non-trivial = at least one cache hit)")
+	r.Rule("memo-concurrent: 1..16 goroutines calling Memoize on 1..3 keys inside a testing/synctest bubble (-race build) with function latency {0, 10ms, 1s virtual}, outcomes {value, error, error-then-value, item+error, item+error-then-value}, staggered starts, expiry {never, 25ms}; the supplied function counts executions in flight per key and logs (trigger, start, end, result) with virtual timestamps; checked: never 2 in flight per key, every result produced by a same-key execution that finished before the caller returned (errors only from overlapping executions, values not after their expiry), no execution triggered by a call that began after a live value was cached, no waiting on another key; each distinct case is repeated for schedule diversity (distinct = (case without the repetition index, GOMAXPROCS); non-trivial = >= 2 callers) || memo-sequential: every call/advance pattern up to length 5 against an exact cache model (non-trivial = at least one cache hit)")
 
 	reps := r.Pick(12, 120)
 	core.Monitor(r, "memo-concurrent", 0, func(emit func(Case)) {
@@ -447,7 +462,7 @@ func TestProp(t *testing.T) {
 		for _, n := range []int{1, 2, 4, 8, 16} {
 			for _, keys := range []int{1, 2, 3} {
 				for _, lat := range []int{0, 10000, 1000000} {
-					for _, out := range []string{"value", "error", "error-then-value"} {
+					for _, out := range []string{"value", "error", "error-then-value", "item+error", "item+error-then-value"} {
 						for _, exp := range []int{0, 25} {
 							for stag := 0; stag < 4; stag++ {
 								for rep := 0; rep < reps; rep++ {
@@ -475,13 +490,13 @@ func TestProp(t *testing.T) {
 	}, run)
 
 	core.Monitor(r, "memo-sequential", 0, func(emit func(SeqCase)) {
-		alpha := []SOp{{K: "call", Key: 0}, {K: "call", Key: 0, Err: true}, {K: "call", Key: 1}, {K: "adv", Adv: "before"}, {K: "adv", Adv: "after"}, {K: "adv", Adv: "small"}}
+		alpha := []SOp{{K: "call", Key: 0}, {K: "call", Key: 0, Err: true}, {K: "call", Key: 0, Err: true, Itm: true}, {K: "call", Key: 1}, {K: "adv", Adv: "before"}, {K: "adv", Adv: "after"}, {K: "adv", Adv: "small"}}
 		var n int64
 		for _, exp := range []int{0, 50} {
 			for _, lat := range []int{0, 10000} {
 				n += seq.Enum(alpha, r.Pick(5, 6), func(ops []SOp) { emit(SeqCase{ExpMs: exp, LatencyUs: lat, Ops: ops}) })
 			}
 		}
-		r.Exhaustive(fmt.Sprintf("all sequential patterns of length<=%d over {call a ok, call a failing, call b ok, advance to 1ns before expiry, to 1ns after expiry, by 1ms} x expiry {never, 50ms} x latency {0, 10ms}", r.Pick(5, 6)), n)
+		r.Exhaustive(fmt.Sprintf("all sequential patterns of length<=%d over {call a ok, call a failing, call a failing with an item next to the error, call b ok, advance to 1ns before expiry, to 1ns after expiry, by 1ms} x expiry {never, 50ms} x latency {0, 10ms}", r.Pick(5, 6)), n)
 	}, runSeq)
 }
